@@ -777,6 +777,7 @@ static int replayPair(const json &r) {
         return 2;
     std::unique_ptr<IObj> x = facs[fam](), y = facs[fam]();
     std::cout << "family: " << x->family() << "\n";
+    bool consistent = true;
     auto doAct = [&](const json &act) {
         if (act.at("kind") == "copy") {
             IObj &src = act.at("src") == 1 ? *x : *y;
@@ -787,20 +788,19 @@ static int replayPair(const json &r) {
                 (act.at("dst") == 1 ? *x : *y).assignFrom(src);
         } else if (act.at("kind") == "call")
             (act.at("obj") == 1 ? *x : *y).apply(act.at("c"));
-        std::cout << "  " << act.dump() << "  ->  a==b:" << x->equals(*y) << " b==a:" << y->equals(*x)
-                  << " a!=b:" << x->differs(*y) << "\n";
+        bool same = x->abstractGraph() == y->abstractGraph();
+        bool good = x->equals(*y) == same && y->equals(*x) == same && x->equals(*x) && y->equals(*y) &&
+                    x->differs(*y) != x->equals(*y);
+        consistent = consistent && good;
+        std::cout << "  " << act.dump() << "  ->  same graph:" << same << " a==b:" << x->equals(*y) << " b==a:" << y->equals(*x)
+                  << " a!=b:" << x->differs(*y) << (good ? "" : "   <-- operator== disagrees with the graphs shown") << "\n";
     };
     for (auto &a : r.at("history"))
         doAct(a);
     doAct(r.at("act"));
-    std::cout << "a: " << x->enc().dump() << "\nb: " << y->enc().dump() << "\nexpected: "
-              << r.at("expected").dump() << "\n";
-    const json &eq = r.at("expected").at("eq");
-    bool same = x->enc() == r.at("expected").at("to")[0] && y->enc() == r.at("expected").at("to")[1] &&
-                x->equals(*y) == eq.at("e12").get<bool>() && y->equals(*x) == eq.at("e21").get<bool>() &&
-                x->equals(*x) && y->equals(*y) && x->differs(*y) != x->equals(*y);
-    std::cout << (same ? "REPLAY: conforms" : "REPLAY: diverges") << "\n";
-    return same ? 0 : 1;
+    std::cout << "a: " << x->abstractGraph().dump() << "\nb: " << y->abstractGraph().dump() << "\n";
+    std::cout << (consistent ? "REPLAY: conforms" : "REPLAY: diverges") << "\n";
+    return consistent ? 0 : 1;
 }
 
 static int replay(const json &r) {
